@@ -4,6 +4,9 @@ package corerad
 
 import (
 	"fmt"
+	"net"
+	"os"
+	"syscall"
 
 	"github.com/mdlayher/corerad/internal/config"
 	"net/netip"
@@ -101,6 +104,11 @@ func vErrOf(kind string) error {
 		return vfake.ErrPermission
 	case "other":
 		return vfake.ErrOther
+	case "eintr", "emfile", "op-netdown":
+		// as the socket layer reports them: *net.OpError around *os.SyscallError;
+		// EINTR and EMFILE are "temporary" for package net without being timeouts
+		no := map[string]syscall.Errno{"eintr": syscall.EINTR, "emfile": syscall.EMFILE, "op-netdown": syscall.ENETDOWN}[kind]
+		return &net.OpError{Op: "read", Net: "ip6:ipv6-icmp", Err: os.NewSyscallError("recvmsg", no)}
 	}
 	return nil
 }
